@@ -10,12 +10,15 @@ rc, out = vlib.run_bin(profile, "port", ["--gen", gen, "--seed", seed, "--count"
 cases = vlib.parse_case_lines(out)
 print("cases", len(cases), "rc", rc)
 if rc != 0: print(out[-2000:])
-mm, bad, err = vlib.eval_cases("DBG", "Port.CasesMix", cases, shard=40)
+mm, bad, err = vlib.eval_cases("DBG", "Port.CasesMix", cases, shard=40, prelude="Local Open Scope uint63_scope.")
 if err: print(err); sys.exit(1)
 print("mismatches:", [c[0] for c in mm])
 for c in mm[:int(os.environ.get("SHOW", "1"))]:
     text = """From SV Require Import Port.PortCases.
+Local Open Scope uint63_scope.
 Definition c : pcase := %s.
+Local Close Scope uint63_scope.
+Local Open Scope Z_scope.
 Definition k := first_diff 0 (model_trace c) (pc_trace c).
 Definition cmp (a b : option step_result) :=
   match a, b with
